@@ -102,8 +102,18 @@ package docx
 //@   loop 0:
 //@     invariant level >= 0
 //@ func (*Reader) processParagraph results (res)
-//@   property C15
+//@   property C15, C02
 //@   flags nosafety
+//@   ensures list_level_is_bounded: 0 <= res.ListLevel && res.ListLevel <= maxListLevel
 //@   atreturn#1 outline_level_is_zero_based: (isnil(r.styleResolver) ? parsed.StyleID == "" : !isnil(resolvedStyle) && !resolvedStyle.IsHeading) && ppr.OutlineLvl.Val != "" && parseOutlineLevel(ppr.OutlineLvl.Val) >= 0 ==> parsed.IsHeading && parsed.Level == parseOutlineLevel(ppr.OutlineLvl.Val) + 1
 //@   loop 0:
-//@     invariant parsed.IsHeading == entry(parsed.IsHeading) && parsed.Level == entry(parsed.Level) && parsed.StyleID == entry(parsed.StyleID) && isnil(r.styleResolver) == isnil(old(r.styleResolver)) && resolvedStyle == entry(resolvedStyle)
+//@     invariant parsed.IsHeading == entry(parsed.IsHeading) && parsed.Level == entry(parsed.Level) && parsed.StyleID == entry(parsed.StyleID) && isnil(r.styleResolver) == isnil(old(r.styleResolver)) && resolvedStyle == entry(resolvedStyle) && parsed.ListLevel == entry(parsed.ListLevel)
+
+// ---- C02/C15: the list level read from w:ilvl is within the WordprocessingML range (it sizes the indentation) ----
+//@ func parseListLevel results (r)
+//@   property C15, C02
+//@   flags pure
+//@   ensures level_is_bounded: 0 <= r && r <= maxListLevel
+//@   ensures empty_means_top_level: s == "" ==> r == 0
+//@   loop 0:
+//@     invariant 0 <= level && level <= maxListLevel
